@@ -109,6 +109,9 @@ type c06Result struct {
 }
 
 // runC06History executes one history; returns Coq text.
+// perEventC06, when set (C12), is called after every event of a history has been fully processed.
+var perEventC06 func(e c06Ev)
+
 func runC06History(evs []c06Ev, ackMs, maxRt, nstart int) string {
 	mc := newMemConn(memConnOpts{getMID: 0x2000, queueSize: 16, maxRetransmit: uint32(maxRt), ackTimeout: time.Duration(ackMs) * time.Millisecond, nstart: uint32(nstart), limitTotal: 64, limitEndpoint: 64})
 	defer mc.close()
@@ -153,6 +156,21 @@ func runC06History(evs []c06Ev, ackMs, maxRt, nstart int) string {
 			_ = req.SetPath("/r")
 			go func(id int) {
 				resp, err := mc.cc.Do(req)
+				respCode := 0
+				if err == nil {
+					respCode = int(resp.Code())
+				}
+				if activeTracker != nil {
+					// the application owns the request again and the response (if any): check and release both
+					if err == nil {
+						activeTracker.Hold(resp)
+						activeTracker.Unhold(resp)
+						activeTracker.AppRel(resp)
+						mc.cc.ReleaseMessage(resp)
+					}
+					activeTracker.AppRel(req)
+					mc.cc.ReleaseMessage(req)
+				}
 				if err != nil {
 					cls := 3
 					if strings.Contains(err.Error(), "context canceled") || strings.Contains(err.Error(), "deadline exceeded") {
@@ -163,7 +181,7 @@ func runC06History(evs []c06Ev, ackMs, maxRt, nstart int) string {
 					results <- c06Result{id, cls, 0}
 					return
 				}
-				results <- c06Result{id, 0, int(resp.Code())}
+				results <- c06Result{id, 0, respCode}
 			}(e.ID)
 		case "age":
 			mc.cc.VerifShiftPending(time.Duration(e.Ms) * time.Millisecond)
@@ -275,6 +293,9 @@ func runC06History(evs []c06Ev, ackMs, maxRt, nstart int) string {
 			fmt.Fprintf(os.Stderr, "%s -> em=%v ret=%v sizes=%v\n", e.desc(), ems, rs, mc.cc.VerifSizes())
 		}
 		items = append(items, fmt.Sprintf("HE %s [%s] [%s]", e.coq(), strings.Join(ems, "; "), strings.Join(rs, "; ")))
+		if perEventC06 != nil {
+			perEventC06(e)
+		}
 	}
 	sb.WriteString(strings.Join(items, "; "))
 	sb.WriteString("]")
